@@ -57,9 +57,18 @@ def handle (s : S) (i : Nat) (j : Json) : S × List Json :=
       -- when other positions were closed earlier in the same block the pool the health is measured against has moved:
       -- the prediction is then exact only up to that movement, so the liquidation test is judged with a 0.5 % band
       let others := (fInt? j "othersChanged").getD 0
-      let vj : View := if others > 0 then { v with safety := v.safety + v.safety / 200 } else v
-      let allowedAny := ps.any (allowed vj)
-      let specAny := ps.any (allowedSpec vj)
+      -- the same holds when other positions of the pool were SETTLED in the block (interest and funding taken out of the amm pool):
+      -- later evaluations in the block (later list entries, a repeated request) see the pool after those settlements
+      let othersSettled := (fInt? j "othersSettled").getD 0
+      let vj : View := if others > 0 || othersSettled > 0 then { v with safety := v.safety + v.safety / 200 } else v
+      -- a request repeated later in the same block judges the position again, against the pools as the first settlement left them:
+      -- the harness predicts that second health too, and either evaluation may find the position liquidatable
+      let repeated := (fBool? j "repeated").getD false
+      let vj2 : View := match fInt? j "health2" with
+        | some h2 => if repeated then { vj with health := h2 } else vj
+        | none => vj
+      let allowedAny := ps.any (allowed vj) || ps.any (allowed vj2)
+      let specAny := ps.any (allowedSpec vj) || ps.any (allowedSpec vj2)
       let ownerMoved := ((fArr? j "ownerDelta").getD #[]).size != 0
       let detail := Json.mkObj [("module", modS), ("pos", fld j "pos"), ("requested", fld j "requested"), ("health", mkInt h), ("safety", mkInt sf), ("price", mkInt pr),
         ("stopLoss", mkInt sl), ("takeProfit", mkInt tp), ("long", v.long), ("before", before), ("after", after), ("ownerDelta", fld j "ownerDelta"),
